@@ -50,6 +50,17 @@ class FakeModel:
         return 0.0
 
 
+MINI = os.environ.get("MINI", "0") == "1"        # Engine(minimize_transition_infos=True)
+
+
+class InfoCell(fj.Cell):
+    """transition info of the recording kernel: `minimize()` gives the reduced info the engine stores on request"""
+    __slots__ = ()
+
+    def minimize(self):
+        return fj.Cell(("mini",) + tuple(self.v[1:]))
+
+
 class RecKernel(ModelMixin, TransitionMixin, TuningMixin):
     """records every call; writes Cell((kernel, time)) into its position key so that stored samples
     identify the iteration that produced them"""
@@ -71,7 +82,7 @@ class RecKernel(ModelMixin, TransitionMixin, TuningMixin):
     def _step(self, what, key, ks, ms, epoch):
         self._rec(what, key, epoch)
         k = "p_" + self.identifier
-        return TransitionOutcome(fj.Cell(("info", self.identifier, epoch.time)), fj.Cell(("ks", self.identifier, epoch.time + 1)),
+        return TransitionOutcome(InfoCell(("info", self.identifier, epoch.time)), fj.Cell(("ks", self.identifier, epoch.time + 1)),
                                  ms | {k: fj.Cell((self.identifier, epoch.time)), "shared": fj.Cell(("shared", self.identifier, epoch.time))})
 
     def _standard_transition(self, key, ks, ms, epoch):
@@ -142,7 +153,7 @@ def run(schedule, chunk, hist, store_ks=True, upfront=None, tracked=None):
     ms["shared"] = fj.Cell(("init", "shared"))
     gens = [RecGenerator(f"g{i}") for i in range(QG)]
     e = eng.Engine(fj.KeyT(("seed",)), ms, kseq.KernelSequence(kernels), cfgs, chunk, FakeModel(), tracked, store_kernel_states=store_ks, show_progress=False,
-                   quantity_generators=gens)
+                   quantity_generators=gens, minimize_transition_infos=MINI)
     e.sample_all_epochs()
     for t, d, th in schedule[upfront:]:
         e.append_epoch(EpochConfig(EpochType(t), d, th, None))
@@ -232,7 +243,7 @@ def chains_ok(schedule, chunk, hist, store_ks, upfront) -> bool:
     ti = r.transition_infos.combine_all().unwrap()
     for kid in range(nk):
         infos = [c.v for c in ti[f"k{kid}"].cells]
-        if infos != [("info", f"k{kid}", 1 + j) for j in range(total)]:      # one info per transition, unthinned, in order
+        if infos != [("mini" if MINI else "info", f"k{kid}", 1 + j) for j in range(total)]:      # one info per transition, unthinned, in order
             return False
     if QG:
         gq = r.generated_quantities.unwrap().combine_all().unwrap()
